@@ -88,6 +88,7 @@ pub fn emit<W: Write>(c: &mut Cases<W>, cfg: &FileCfg, entries: &[(Vec<u8>, Vec<
     for (k, v) in entries {
         c.line(&format!("e {} {}", hex(k), hex(v)));
     }
+    c.checkpoint();
     c.bump(&format!("codec{}", cfg.codec as u8), 1);
     c.bump(&format!("levels{}", if cfg.levels > 4 { 9 } else { cfg.levels }), 1);
     c.bump(if cfg.unclamped { "bs.unclamped" } else { "bs.public" }, 1);
@@ -180,9 +181,11 @@ pub fn generate<W: Write>(c: &mut Cases<W>, rng: &mut Rng, thorough: bool, with_
     // large blocks: a value far larger than any internal buffer of the codecs (and incompressible),
     // next to small entries, for every codec at a low and a higher level
     for codec in CODECS {
-        for level in [0u32, 6] {
+        for level in [0u32, 1, 6] {
             let cfg = FileCfg { codec, level, block_size: 1024, levels: 1, ..base.clone() };
-            let mut big = vec![0u8; 100_000];
+            // (zlib at its fastest level expands incompressible data the most; 400 kB exceeds any
+            // output buffer sized from the input)
+            let mut big = vec![0u8; if codec == CompressionType::Zlib { 400_000 } else { 100_000 }];
             let mut x = 0x9E3779B97F4A7C15u64;
             for b in big.iter_mut() {
                 x ^= x << 13; x ^= x >> 7; x ^= x << 17;
